@@ -211,55 +211,75 @@ def dump(nodes):
 
 
 def run_job(job):
+    """A job without "rounds" is one round.  With "rounds": the SAME handler instance (and lifting object, stub
+    potentials) serves all rounds, as in the real program; every round has its own in-state, return values and draws
+    and an optional "do_out": False (send_event_time only: the candidate was trashed)."""
+    rounds = job.get("rounds") or [job]
+    first = rounds[0]
     setting.reset()
     dim = job["dim"]
     hypercubic_setting.HypercubicSetting(beta=b2f(job["beta"]), dimension=dim, system_length=b2f(job["L"]))
-    levels = 2 if any(u["parent"] is not None for u in job["units"]) else 1
+    levels = 2 if any(u["parent"] is not None for u in first["units"]) else 1
     setting.set_number_of_node_levels(levels)
-    nroots = sum(1 for u in job["units"] if u["parent"] is None)
+    nroots = sum(1 for u in first["units"] if u["parent"] is None)
     setting.set_number_of_root_nodes(nroots)
-    setting.set_number_of_nodes_per_root_node(max(1, (len(job["units"]) - nroots) // max(1, nroots)) if levels == 2 else 1)
-    for k in ("expo", "unif", "calls", "inserts", "cells"):
-        getattr(LOG, k)[:] = []
-    Q.expo[:] = [b2f(x) for x in job["expo"]]
-    Q.unif[:] = [b2f(x) for x in job["unif"]]
-    ret = job["ret"]
+    setting.set_number_of_nodes_per_root_node(max(1, (len(first["units"]) - nroots) // max(1, nroots))
+                                              if levels == 2 else 1)
     kind = job["kind"]
     ch = "q" if job["charge"] else None
     nc = job["ncharge"]
-
-    def vals(key):
-        v = ret.get(key, [])
-        return [[b2f(y) for y in x] if isinstance(x, list) else b2f(x) for x in v]
+    pot = bpot = None
     if kind == "TL":
-        pot = Stub(0, 1, nc, job["change_required"], vals("disp"), vals("der"))
+        pot = Stub(0, 1, nc, job["change_required"], [], [])
         h = TwoLeafUnitEventHandler(potential=pot, charge=ch)
     elif kind == "TLB":
-        pot = Stub(0, 1, nc, False, [], vals("der"))
-        bpot = Stub(2, 1, nc, True, vals("bdisp"), vals("bder"))
+        pot = Stub(0, 1, nc, False, [], [])
+        bpot = Stub(2, 1, nc, True, [], [])
         h = TwoLeafUnitBoundingPotentialEventHandler(potential=pot, bounding_potential=bpot, charge=ch)
     elif kind == "PW2":
-        pot = Stub(0, 1, nc, False, [], vals("der"))
+        pot = Stub(0, 1, nc, False, [], [])
         h = TwoLeafUnitEventHandlerWithPiecewiseConstantBoundingPotential(
             potential=pot, offset=b2f(job["offset"]), max_displacement=b2f(job["max_disp"]), charge=ch)
     elif kind == "FIXED":
-        pot = Stub(0, len(job["separations"]) // 2, nc, False, [], vals("der"))
+        pot = Stub(0, len(job["separations"]) // 2, nc, False, [], [])
         h = FixedSeparationsEventHandlerWithPiecewiseConstantBoundingPotential(
             potential=pot, lifting=recording(LIFTINGS[job["lifting"]]), offset=b2f(job["offset"]),
             max_displacement=b2f(job["max_disp"]), separations=list(job["separations"]))
     elif kind == "SUMMED":
-        pot = Stub(0, 1, nc, False, [], vals("der"))
-        bpot = Stub(2, 1, nc, True, vals("bdisp"), vals("bder"))
+        pot = Stub(0, 1, nc, False, [], [])
+        bpot = Stub(2, 1, nc, True, [], [])
         h = TwoCompositeObjectSummedBoundingPotentialEventHandler(
             potential=pot, bounding_potential=bpot, lifting=recording(LIFTINGS[job["lifting"]]), charge=ch)
     elif kind == "CELLB":
-        pot = Stub(0, 1, nc, False, [], vals("der"))
-        bpot = CellStub(Stub(2, 1, nc, True, vals("bdisp"), vals("bder")))
-        h = TwoLeafUnitCellBoundingPotentialEventHandler(potential=pot, bounding_potential=bpot, charge=ch)
-        h.initialize(CellsStub(job["cells"]["tokens"], job["cells"]["relative"]))
+        pot = Stub(0, 1, nc, False, [], [])
+        bpot = Stub(2, 1, nc, True, [], [])
+        h = TwoLeafUnitCellBoundingPotentialEventHandler(potential=pot, bounding_potential=CellStub(bpot), charge=ch)
     else:
         raise ValueError(kind)
-    roots, nodes = build_state(job)
+    results = []
+    for rd in rounds:
+        results.append(run_round(kind, h, pot, bpot, rd))
+    if job.get("rounds"):
+        return {"rounds": results}
+    return results[0]
+
+
+def run_round(kind, h, pot, bpot, rd):
+    for k in ("expo", "unif", "calls", "inserts", "cells"):
+        getattr(LOG, k)[:] = []
+    Q.expo[:] = [b2f(x) for x in rd["expo"]]
+    Q.unif[:] = [b2f(x) for x in rd["unif"]]
+    ret = rd["ret"]
+
+    def vals(key):
+        v = ret.get(key, [])
+        return [[b2f(y) for y in x] if isinstance(x, list) else b2f(x) for x in v]
+    pot._disp, pot._der = vals("disp"), vals("der")
+    if bpot is not None:
+        bpot._disp, bpot._der = vals("bdisp"), vals("bder")
+    if kind == "CELLB":
+        h.initialize(CellsStub(rd["cells"]["tokens"], rd["cells"]["relative"]))
+    roots, nodes = build_state(rd)
     res = {}
     try:
         t = h.send_event_time(roots)
@@ -268,12 +288,15 @@ def run_job(job):
         res["time"] = [f2b(t.quotient), f2b(t.remainder)]
         res["state1"] = dump(nodes)
         res["n_calls1"] = len(LOG.calls)
-        out = h.send_out_state()
-        if out is None:
-            res["out"] = None
+        if rd.get("do_out", True):
+            out = h.send_out_state()
+            if out is None:
+                res["out"] = None
+            else:
+                res["out_is_state"] = (len(out) == len(roots) and all(a is b for a, b in zip(out, roots)))
+                res["out"] = dump(nodes)
         else:
-            res["out_is_state"] = (len(out) == len(roots) and all(a is b for a, b in zip(out, roots)))
-            res["out"] = dump(nodes)
+            res["out"] = "skipped"
     except Exception as e:  # noqa
         import traceback
         res["exc"] = exc_enum(e) + ": " + str(e)[:200]
